@@ -10,6 +10,7 @@ the output stream) and at the allocator (tracemalloc on long cases).
 
 from __future__ import annotations
 
+import inspect
 import copy
 import gc
 import io
@@ -490,10 +491,10 @@ def measure_cli(bprime, factor, root):
         f"Scaffold_1\t1\t{L}\t1\tW\tchr1\t1\t{L}\t-\tPainted\n"
         "Scaffold_2\t1\t10\t1\tW\ttail\t1\t10\t+\n"
     )
-    d1 = index_mod.FastaIndex.__init__.__defaults__
-    d2 = index_mod.index_fasta_file.__defaults__
-    index_mod.FastaIndex.__init__.__defaults__ = (bprime,)
-    index_mod.index_fasta_file.__defaults__ = (bprime,)
+    d1 = inspect.unwrap(index_mod.FastaIndex.__init__).__defaults__
+    d2 = inspect.unwrap(index_mod.index_fasta_file).__defaults__
+    inspect.unwrap(index_mod.FastaIndex.__init__).__defaults__ = (bprime,)
+    inspect.unwrap(index_mod.index_fasta_file).__defaults__ = (bprime,)
     gc.collect()
     tracemalloc.start()
     try:
@@ -503,8 +504,8 @@ def measure_cli(bprime, factor, root):
         peak = tracemalloc.get_traced_memory()[1] - base
     finally:
         tracemalloc.stop()
-        index_mod.FastaIndex.__init__.__defaults__ = d1
-        index_mod.index_fasta_file.__defaults__ = d2
+        inspect.unwrap(index_mod.FastaIndex.__init__).__defaults__ = d1
+        inspect.unwrap(index_mod.index_fasta_file).__defaults__ = d2
         clirun.end_of_process()
     if r.code != 0:
         raise Bad("differential_exception", "cli_fasta", f"pretext-to-asm failed on the long identity workload: {r.stderr[-400:]}")
@@ -671,7 +672,8 @@ def large_case(run_seed, tier, which):
     bufs = sorted({4096, 65536, 65537, 131072, 196608, 250_000, 262144, rng.choice([99_991, 131071, 200_000])}, reverse=True)
     try:
         fa = Path(root) / "big.fa"
-        width = rng.choice([60, 80, 100])
+        # (also lines wider than 64 KiB, and the whole record on one line)
+        width = rng.choice([60, 80, 100, 60, 65536, 70001, L])
         # not periodic: a random prefix, N runs inside
         unit = "".join(rng.choice("ACGT") for _ in range(9973))
         seq = (unit * (L // len(unit) + 1))[:L]
